@@ -11,13 +11,14 @@ EXTENDS Dispute, Json, TLC, TraceLib
 CONSTANT KNOWN
 Trace == ndJsonDeserialize("trace.ndjson")
 VARIABLES l, viol, hist, disp, payers, voters, bal, hold, dust,
+          short,      \* inferred: coins that fees paid from stake have recorded but not delivered so far (finding F-13), all families
           rewarded,   \* inferred: <<family hash, account>> pairs that have been paid a voter reward in this history
           fam,       \* inferred: hash -> [in, out] coins that entered / left the dispute account for the family
           paidTimes, \* inferred: <<id, payer>> -> number of fee payments by that payer to that dispute id
           bondFam    \* inferred: hashes of families that received a fee payment from stake
-tvars == <<l, viol, hist, disp, payers, voters, bal, hold, dust, fam, paidTimes, bondFam, rewarded>>
+tvars == <<l, viol, hist, disp, payers, voters, bal, hold, dust, fam, paidTimes, bondFam, rewarded, short>>
 Init == /\ l = 1 /\ viol = {} /\ hist = 0 /\ disp = <<>> /\ payers = <<>> /\ voters = <<>> /\ bal = Zero /\ hold = <<>> /\ dust = Zero
-        /\ fam = <<>> /\ paidTimes = <<>> /\ bondFam = {} /\ rewarded = {}
+        /\ fam = <<>> /\ paidTimes = <<>> /\ bondFam = {} /\ rewarded = {} /\ short = Zero
 
 ById(ds, id) == CHOOSE d \in Range(ds) : d.id = id
 Has(ds, id) == \E d \in Range(ds) : d.id = id
@@ -65,11 +66,24 @@ CheckRefund(e, post) ==
       k == IF Has(disp, e.id) THEN Known(e, d, e.payer) ELSE "none"
   IN
   IF ~e.ok THEN
-     (IF "err" \in DOMAIN e /\ \E i \in 1 .. (Len(e.err) - 11) : SubSeq(e.err, i, i + 11) = "insufficient" THEN {Name(k, "EntitledRefundNeverFailsForLackOfFunds")} ELSE {})
+     \* (Dev_F13: a family whose fee was partly paid from stake received up to one unit per selector less than recorded; the
+     \*  last refund can then be short by those few units.  Identity: fee from stake in this family and the account is short
+     \*  of this payer's refund by at most 16 units.)
+     (IF "err" \in DOMAIN e /\ \E i \in 1 .. (Len(e.err) - 11) : SubSeq(e.err, i, i + 11) = "insufficient"
+      THEN {IF "F-13" \in KNOWN /\ Has(disp, e.id) /\ ~IsZero(short) /\ rec # {}
+               /\ LET p == CHOOSE x \in rec : TRUE
+                      due == ((p.amt ** (IF d.status = FAILED THEN d.feetotal -- (d.feetotal // N(20)) ELSE Monus(d.slash, d.burn))) // d.feetotal)
+                             ++ (IF d.status # FAILED /\ ResultOf(d) \in {1, 4} THEN (p.amt ** d.slash) // d.feetotal ELSE Zero)
+                      \* a refund of a failed dispute also burns the payer's part of the 5%: the account must cover both
+                      pb == IF d.status = FAILED THEN (p.amt ** (d.feetotal // N(20))) // d.feetotal ELSE Zero
+                  IN (due ++ pb) \preceq (bal ++ short)
+            THEN "KNOWN:F-13" ELSE Name(k, "EntitledRefundNeverFailsForLackOfFunds")}
+      ELSE {})
      \* a recorded payer of a family whose executed result leaves a refund can always claim it (through the id it paid to)
      \cup (IF Has(disp, e.id) /\ PayerRec(payers, e.id, e.payer) # {}
               /\ (\E x \in Range(disp) : x.hash = d.hash /\ Executed(x) /\ ResultOf(x) \in {1, 3, 4, 6})
-           THEN {IF "F-18" \in KNOWN /\ (\E x \in Range(disp) : x.hash = d.hash /\ x.round > 1) THEN "KNOWN:F-18"
+           THEN {IF "F-13" \in KNOWN /\ ~IsZero(short) /\ "err" \in DOMAIN e /\ (\E i \in 1 .. (Len(e.err) - 11) : SubSeq(e.err, i, i + 11) = "insufficient") THEN "KNOWN:F-13"
+                 ELSE IF "F-18" \in KNOWN /\ (\E x \in Range(disp) : x.hash = d.hash /\ x.round > 1) THEN "KNOWN:F-18"
                  ELSE IF "F-21" \in KNOWN /\ (CHOOSE p \in rec : TRUE).bond THEN "KNOWN:F-21" ELSE "EveryRecordedPayerCanClaimItsRefund"}
            ELSE {})
      \cup (IF e.post.dispute.bal = bal /\ e.post.dispute.payers = payers THEN {} ELSE {"RejectedRefundChangesNothing"})
@@ -193,6 +207,14 @@ Step ==
         /\ fam' = f2
         /\ paidTimes' = IF payKey[1] = 0 THEN pt1 ELSE [k \in (DOMAIN pt1) \cup {payKey} |-> IF k = payKey THEN (IF payKey \in DOMAIN pt1 THEN pt1[payKey] ELSE 0) + 1 ELSE pt1[k]]
         /\ bondFam' = (IF reset THEN {} ELSE bondFam) \cup (IF e.ev \in {"ProposeDispute", "AddFeeToDispute"} /\ e.ok /\ e.bond /\ target # "none" THEN {target} ELSE {})
+        /\ short' = (IF reset THEN Zero ELSE short) ++
+                     (IF e.ev \in {"ProposeDispute", "AddFeeToDispute"} /\ e.ok /\ e.bond /\ target # "none"
+                      THEN LET tgt == CHOOSE x \in Range(post) : x.hash = target /\ \A y \in Range(post) : y.hash = target => y.id <= x.id
+                               before == IF Has(disp, tgt.id) THEN ById(disp, tgt.id).feetotal
+                                         ELSE IF tgt.round > 1 /\ \E y \in Range(disp) : y.hash = target THEN (CHOOSE y \in Range(disp) : y.hash = target /\ \A z \in Range(disp) : z.hash = target => z.id <= y.id).feetotal
+                                         ELSE Zero
+                           IN Monus(Monus(tgt.feetotal, before), din)
+                      ELSE Zero)
         /\ rewarded' = (IF reset THEN {} ELSE rewarded) \cup (IF e.ev = "ClaimReward" /\ e.ok /\ Has(disp, e.id) THEN {<<ById(disp, e.id).hash, e.who>>} ELSE {})
         /\ viol' = IF reset THEN viol ELSE AddViol(viol, l, Check(e, f2))
         /\ l' = l + 1
